@@ -5,6 +5,7 @@ import (
 	"crypto/tls"
 	"errors"
 	"fmt"
+	"net"
 	"net/http"
 	"net/http/httptest"
 	"net/url"
@@ -222,6 +223,11 @@ func suiteC13(r *Run) {
 		if caller != nil {
 			ctx = metadata.NewOutgoingContext(ctx, caller.Copy())
 		}
+		// proxy style: the call is made from inside another handler, whose context carries that call's peer
+		foreign := rng.Chance(35)
+		if foreign {
+			ctx = peer.NewContext(ctx, &peer.Peer{Addr: &net.TCPAddr{IP: net.IPv4(203, 0, 113, 9), Port: 999}})
+		}
 		var opts []grpc.CallOption
 		var pr peer.Peer
 		if withPeer {
@@ -250,7 +256,7 @@ func suiteC13(r *Run) {
 		cancel()
 		nTrips := trips()
 		closeFn()
-		c := map[string]interface{}{"transport": tp.name, "streaming": streaming, "creds": fmt.Sprintf("%+v", tc), "caller_md": mdArg(caller), "peer_option": withPeer}
+		c := map[string]interface{}{"transport": tp.name, "streaming": streaming, "creds": fmt.Sprintf("%+v", tc), "caller_md": mdArg(caller), "peer_option": withPeer, "caller_context_has_upstream_peer": foreign}
 		r.Eval(fmt.Sprint("e2e", tp.name, streaming, tc != nil, mdArg(caller), withPeer, iter), tc != nil || withPeer)
 		r.Count("e2e:" + tp.name)
 		r.TracesOnImpl++
@@ -292,6 +298,8 @@ func suiteC13(r *Run) {
 		// peer
 		if seenPeer == nil || seenPeer.Addr == nil || seenPeer.Addr.String() == "" {
 			r.Violate("peer/handler-peer-missing", "the handler's peer reports the remote address", sprintf("%s: handler peer %v", tp.name, seenPeer), c, "")
+		} else if a := seenPeer.Addr.String(); a == "203.0.113.9:999" {
+			r.Violate("peer/handler-peer-is-callers-upstream-peer", "the handler's peer reports the remote address (of this call's connection)", sprintf("%s: the handler's peer is %q, the peer found in the caller's context (the caller's own upstream), not this call's", tp.name, a), c, a)
 		} else if a := seenPeer.Addr.String(); tp.name == "httpmem" && a != "192.0.2.1:1234" ||
 			strings.HasPrefix(tp.name, "http") && tp.name != "httpmem" && !strings.HasPrefix(a, "127.0.0.1:") && !strings.HasPrefix(a, "[::1]:") {
 			r.Violate("peer/handler-peer-not-remote-address", "the handler's peer reports the remote address", sprintf("%s: handler peer address %q is not the address of the connection", tp.name, a), c, a)
@@ -301,7 +309,9 @@ func suiteC13(r *Run) {
 			}
 		}
 		if withPeer {
-			if pr.Addr == nil || pr.Addr.String() == "" {
+			if pr.Addr != nil && pr.Addr.String() == "203.0.113.9:999" {
+				r.Violate("peer/option-is-callers-upstream-peer", "the peer call option reports the remote address", sprintf("%s: peer option reports %q, the peer from the caller's context", tp.name, pr.Addr), c, "")
+			} else if pr.Addr == nil || pr.Addr.String() == "" {
 				r.Violate("peer/option-missing", "the peer call option reports the remote address", sprintf("%s streaming=%v: peer option %+v", tp.name, streaming, pr), c, "")
 			} else if tp.name == "httptls" {
 				if _, ok := pr.AuthInfo.(credentials.TLSInfo); !ok {
